@@ -16,6 +16,8 @@
     multipliers, in unbounded [Z].  [costs_ok]: all r, m are in [0, MaxInt]. *)
 From Coq Require Import List ZArith Bool.
 From ApiFu Require Import Base.Sexp Cost.CostModel Cost.CostSpec Cost.CostProofs.
+From ApiFu Require Val.Values Val.CoerceModel Val.CoerceSpec Val.CoerceProofs Relay.RelayModel.
+From ApiFu Require Import Cost.CostArgs Cost.CostArgsProofs Cost.CostFragments Cost.CostRelay.
 Import ListNotations.
 Open Scope Z_scope.
 
@@ -162,6 +164,192 @@ Theorem C14_cost_exact_refuted_before_fix :
     = Done MaxInt true.
 Proof. exact cost_exact_refuted_before_fix. Qed.
 
+
+(** * Round 3 (stage B) *)
+
+(** ** the arguments cost functions see (Cost/CostArgs.v; jointly with C05).
+
+    [afield]: a field selection with the definition's argument definitions, the selection's argument
+    literals and the definition's cost function of (cost context, argument map).  [compile_field vv f]
+    is what the visitor's [*ast.Field] case makes of it under the coerced variables [vv]:
+    [KField (Some h) false] = "the cost function is called, and [h] is that call as a function of the
+    context"; [KField _ true] = CoerceArgumentValues failed, a secondary error, nothing is called.
+    [coerce_variable_values], [coerce_argument_values], [static_ok], [cost_observation] are C05's
+    transcriptions (Val/CoerceModel.v), [ref_request] is C05's reference coercion (Val/CoerceSpec.v),
+    [args_conform_b] "conforms to the declared argument types". *)
+
+(** cost functions only ever see spec-coerced arguments (single-field documents, the shape of C05):
+    the map the cost function is applied to is RefCoerce of what the client sent, it is the map of
+    [C05_cost_args_conform]'s [cost_observation], and it conforms; when the reference coercion fails
+    nothing is called. *)
+Theorem C14_cost_functions_see_spec_coerced_arguments :
+  forall (C : Type) E dt defs raw vv (f : afield C) g,
+  CoerceProofs.schema_ok E (af_argdefs f) -> CoerceProofs.request_ok defs raw ->
+  CoerceSpec.env_closed E = true ->
+  (forall ad, In ad (af_argdefs f) -> CoerceSpec.sty_closed E (Values.in_type (snd ad)) = true) ->
+  CoerceModel.static_ok CoerceModel.all_fixed E dt true (af_argdefs f) defs (af_args f) = true ->
+  CoerceModel.coerce_variable_values CoerceModel.all_fixed E dt defs raw = Values.Ok vv ->
+  af_cost f = Some g ->
+  match CoerceSpec.ref_request E dt (af_argdefs f) defs (af_args f) raw with
+  | Some m => compile_field C E dt vv f = KField (Some (fun ctx => g ctx m)) false /\
+              In m (CoerceModel.cost_observation CoerceModel.all_fixed E dt true (af_argdefs f) defs (af_args f) raw) /\
+              CoerceSpec.args_conform_b E (af_argdefs f) m = true
+  | None => compile_field C E dt vv f = KField None true
+  end.
+Proof. exact field_sees_spec_coerced. Qed.
+
+(** any document: one field selection among many, the variables of the whole operation.  Whatever
+    a cost function is applied to is the result of C05's [coerce_argument_values] and conforms to
+    the declared argument types ([h = panicking]: the coercion code itself panicked, excluded for
+    closed schemas by [C05_request_no_panic]). *)
+Theorem C14_cost_args_conform : forall (C : Type) E dt defs raw vv (f : afield C) h,
+  CoerceProofs.schema_ok E (af_argdefs f) ->
+  CoerceModel.has_dup (map Values.vd_name defs) = false -> CoerceProofs.request_ok defs raw ->
+  CoerceModel.coerce_variable_values CoerceModel.all_fixed E dt defs raw = Values.Ok vv ->
+  field_usage_ok C E defs f = true ->
+  compile_field C E dt vv f = KField (Some h) false ->
+  h = panicking C \/
+  exists g m, af_cost f = Some g /\ h = (fun ctx => g ctx m) /\
+              CoerceModel.coerce_argument_values CoerceModel.all_fixed E dt (af_argdefs f) (af_args f) vv = Values.Ok m /\
+              CoerceSpec.args_conform_b E (af_argdefs f) m = true.
+Proof. exact field_args_conform. Qed.
+
+(** the rule on a request (document with argument literals, raw variable values) is the rule on the
+    compiled document: all theorems above apply *)
+Theorem C14_request_is_compiled_document : forall (C : Type) E dt skip_zero fuel dc ctx0 ops frs opname raw max vv,
+  request_variables C E dt ops opname raw = Values.Ok vv ->
+  validate_cost_request C E dt skip_zero fuel dc ctx0 ops frs opname raw max
+  = validate_cost C skip_zero fuel dc ctx0 (compiled_ops C E dt vv ops) (compiled_frs C E dt vv frs) opname false max.
+Proof. exact request_is_compiled. Qed.
+
+Theorem C14_request_cost_exact : forall (C : Type) E dt dc ctx0 ops frs opname raw max fuel vv op ts,
+  request_variables C E dt ops opname raw = Values.Ok vv ->
+  NoDup (map fst frs) ->
+  get_operation (compiled_ops C E dt vv ops) opname = Some op ->
+  Expand dc (compiled_frs C E dt vv frs) [] ctx0 op ts ->
+  forallb costs_ok ts = true ->
+  (length frs < fuel)%nat ->
+  max <= MaxInt ->
+  validate_cost_request C E dt true fuel dc ctx0 ops frs opname raw max
+  = Done (Z.min (RefCost ts) MaxInt) ((max >=? 0) && (RefCost ts >? max)).
+Proof. exact request_cost_exact. Qed.
+
+(** the walked operation is the one whose variable definitions were coerced *)
+Theorem C14_chosen_operation : forall (C : Type) E dt vv (ops : list (aop C)) opname,
+  get_operation (compiled_ops C E dt vv ops) opname
+  = match filter (fun o => op_matches opname (ao_name o)) ops with
+    | [o] => Some (compile C E dt vv (ao_body o))
+    | _ => None
+    end.
+Proof. exact chosen_operation. Qed.
+
+(** uncoercible variables: one secondary error, no cost function is called, no cost is reported *)
+Theorem C14_request_vars_error : forall (C : Type) E dt skip_zero fuel dc ctx0 ops frs opname raw max defs,
+  chosen_vardefs C ops opname = Some defs ->
+  CoerceModel.coerce_variable_values CoerceModel.all_fixed E dt defs raw = Values.Err ->
+  validate_cost_request C E dt skip_zero fuel dc ctx0 ops frs opname raw max = Secondary [ECoerceVars].
+Proof. exact request_vars_error. Qed.
+
+Theorem C14_request_never_out_of_fuel : forall (C : Type) E dt skip_zero fuel dc ctx0 ops frs opname raw max,
+  (length frs < fuel)%nat ->
+  validate_cost_request C E dt skip_zero fuel dc ctx0 ops frs opname raw max <> ROutOfFuel.
+Proof. exact request_never_out_of_fuel. Qed.
+
+(** ** what a fragment spread contributes (Cost/CostFragments.v).  [st_of C c p mrest ctx crest path]:
+    the closure's variables when the cost so far is [c], the product of the enclosing multipliers
+    [p] (both saturated), [mrest]/[crest] the stacks beneath the top, [path] the fragments being
+    expanded.  Walking a fragment body changes the running cost only, by [p * RefCost ts], where the
+    forest [ts] is determined by (body, context): *)
+Theorem C14_fragment_cost_local : forall (C : Type) (dc : fcost C) frs, NoDup (map fst frs) ->
+  forall path ctx body ts,
+  Expand dc frs path ctx body ts -> forallb costs_ok ts = true ->
+  forall fuel c p mrest crest,
+    0 <= c -> 1 <= p ->
+    NoDup path -> incl path (map fst frs) -> (length frs < fuel + length path)%nat ->
+    visit C true dc frs fuel body (st_of C c p mrest ctx crest path)
+    = Ok (st_of C (c + p * RefCost ts) p mrest ctx crest path).
+Proof. exact fragment_cost_local. Qed.
+
+Theorem C14_expand_path_irrelevant : forall (C : Type) (dc : fcost C) frs path path' ctx n ts ts',
+  Expand dc frs path ctx n ts -> Expand dc frs path' ctx n ts' -> ts = ts'.
+Proof. exact expand_path_irrelevant. Qed.
+
+(** two spread sites of one fragment under the same cost context — any cost so far, any stacks, any
+    enclosing fragments, any fuel: the increments are p1 * k and p2 * k for the same k *)
+Theorem C14_spread_sites_agree : forall (C : Type) (dc : fcost C) frs, NoDup (map fst frs) ->
+  forall ctx body path1 path2 ts1 ts2,
+  Expand dc frs path1 ctx body ts1 -> Expand dc frs path2 ctx body ts2 ->
+  forallb costs_ok ts1 = true ->
+  ts1 = ts2 /\
+  forall fuel1 fuel2 c1 c2 p1 p2 mrest1 mrest2 crest1 crest2,
+    0 <= c1 -> 0 <= c2 -> 1 <= p1 -> 1 <= p2 ->
+    NoDup path1 -> incl path1 (map fst frs) -> (length frs < fuel1 + length path1)%nat ->
+    NoDup path2 -> incl path2 (map fst frs) -> (length frs < fuel2 + length path2)%nat ->
+    visit C true dc frs fuel1 body (st_of C c1 p1 mrest1 ctx crest1 path1)
+    = Ok (st_of C (c1 + p1 * RefCost ts1) p1 mrest1 ctx crest1 path1) /\
+    visit C true dc frs fuel2 body (st_of C c2 p2 mrest2 ctx crest2 path2)
+    = Ok (st_of C (c2 + p2 * RefCost ts1) p2 mrest2 ctx crest2 path2).
+Proof. exact spread_sites_agree. Qed.
+
+(** ... and both parameters matter (a cache keyed by the fragment name alone would be wrong):
+    [{ a { ...A } b { ...A } }], A = [{ rc }] costing the number in the context, a / b set 5 / 7 *)
+Theorem C14_fragment_cost_depends_on_context :
+  validate_cost Z true 2 dc1 0
+    [(None, Node KOther [set_ctx 5 [Node (KSpread n_A) []]; set_ctx 7 [Node (KSpread n_A) []]])]
+    frag_rc [] false (-1)
+  = Done 12 false.
+Proof. exact fragment_cost_depends_on_context. Qed.
+
+Theorem C14_fragment_cost_depends_on_multiplier :
+  validate_cost Z true 2 dc1 5
+    [(None, Node KOther [Node (KSpread n_A) []; times 3 [Node (KSpread n_A) []]])]
+    frag_rc [] false (-1)
+  = Done 20 false.
+Proof. exact fragment_cost_depends_on_multiplier. Qed.
+
+(** the oracle's executable expansion finds the expansion whenever there is one (fuel > number of
+    fragment definitions): no valid document is skipped by the oracle for lack of fuel *)
+Theorem C14_expand_complete : forall (C : Type) (dc : fcost C) frs ctx op ts fuel,
+  Expand dc frs [] ctx op ts -> (length frs < fuel)%nat ->
+  expand dc frs fuel [] ctx op = Some ts.
+Proof. exact expand_complete. Qed.
+
+(** ** edges resolved <= multiplier charged, composed with C09's model of the connection field
+    (Relay/RelayModel.v [serve]: the resolver built by Connection(config), completeConnection,
+    pagination.EdgesToReturn; [app]: the application's ResolveAllEdges / ResolveEdges /
+    ResolveTotalCount, direct or promise).  For EVERY application — whatever list it hands over —
+    and every argument combination the resolver accepts (first >= 0 with last absent or null,
+    last >= 0 with first absent or null), the page is no longer than the multiplier charged to
+    [edges] by the default cost functions; all other combinations are errors without edges
+    ([C09_relay_arg_errors]).  TimeBasedConnection is Connection with a ResolveEdges callback;
+    ConnectionInterface's [edges] cost is the same function [edges_cost]. *)
+Theorem C14_served_page_within_count : forall (Cu Ed : Type) ltb cur encode decode (a : RelayModel.app Cu Ed) ar page pi total,
+  RelayModel.serve Cu Ed ltb cur encode decode a ar = RelayModel.RData page pi total ->
+  exists n, 0 <= n /\
+    ((RelayModel.a_first ar = Some n /\ RelayModel.a_last ar = None) \/
+     (RelayModel.a_first ar = None /\ RelayModel.a_last ar = Some n)) /\
+    RelayModel.len page <= n.
+Proof. exact served_page_within_count. Qed.
+
+Theorem C14_connection_edges_le_multiplier_relay :
+  forall (Cu Ed : Type) ltb cur encode decode (U : Type) (a : RelayModel.app Cu Ed) ar
+         (first last : argval) (ctx : kctx U) page pi total,
+  RelayModel.a_first ar = count_of first -> RelayModel.a_last ar = count_of last ->
+  RelayModel.serve Cu Ed ltb cur encode decode a ar = RelayModel.RData page pi total ->
+  exists ctx' fc,
+    fc_ctx (default_connection_cost first last ctx) = Some ctx' /\
+    edges_cost ctx' = Some fc /\
+    fc_r fc = 0 /\ 0 <= fc_m fc /\
+    RelayModel.len page <= fc_m fc /\ RelayModel.len page <= eff (fc_m fc).
+Proof. exact connection_edges_le_multiplier_relay. Qed.
+
+(** the edge-count model the correspondence check compares with accepts exactly C09's combinations *)
+Theorem C14_connection_edge_count_accepts : forall first last n,
+  (exists k, connection_edge_count first last n = Some k) <->
+  RelayModel.check_counts {| RelayModel.a_first := count_of first; RelayModel.a_last := count_of last;
+                             RelayModel.a_after := None; RelayModel.a_before := None |} = None.
+Proof. exact connection_edge_count_accepts. Qed.
+
 Print Assumptions C14_checked_mul_spec.
 Print Assumptions C14_checked_add_spec.
 Print Assumptions C14_select_op_spec.
@@ -177,3 +365,19 @@ Print Assumptions C14_cost_exact_fragment_free.
 Print Assumptions C14_expand_sound.
 Print Assumptions C14_connection_edges_le_multiplier.
 Print Assumptions C14_cost_exact_refuted_before_fix.
+Print Assumptions C14_cost_functions_see_spec_coerced_arguments.
+Print Assumptions C14_cost_args_conform.
+Print Assumptions C14_request_is_compiled_document.
+Print Assumptions C14_request_cost_exact.
+Print Assumptions C14_chosen_operation.
+Print Assumptions C14_request_vars_error.
+Print Assumptions C14_request_never_out_of_fuel.
+Print Assumptions C14_fragment_cost_local.
+Print Assumptions C14_expand_path_irrelevant.
+Print Assumptions C14_spread_sites_agree.
+Print Assumptions C14_fragment_cost_depends_on_context.
+Print Assumptions C14_fragment_cost_depends_on_multiplier.
+Print Assumptions C14_expand_complete.
+Print Assumptions C14_served_page_within_count.
+Print Assumptions C14_connection_edges_le_multiplier_relay.
+Print Assumptions C14_connection_edge_count_accepts.
